@@ -85,7 +85,7 @@ func propC03(rt *rapid.T, t *testing.T, c *ev.Collector) {
 			pastEpochs = append(pastEpochs, e)
 		}
 	}
-	var sentRelays []chain.RelaySpec           // every relay ever put into an accepted tx
+	var sentRelays []chain.RelaySpec             // every relay ever put into an accepted tx
 	var sentMsgs []*pairingtypes.MsgRelayPayment // accepted messages
 	var sentMsgRelays [][]chain.RelaySpec
 	var lastAfter *snap
@@ -157,6 +157,21 @@ func propC03(rt *rapid.T, t *testing.T, c *ev.Collector) {
 	// deliver sends msg and checks the oracle.
 	deliver := func(sender *chain.Prov, relays []chain.RelaySpec, msg *pairingtypes.MsgRelayPayment, label string) {
 		continuity()
+		// the creator of a message is an account: its upper-case bech32 spelling names the same
+		// signer (accepted by AccAddressFromBech32 / GetSigners) and is sent 1 time in 4
+		upper := false
+		if rapid.IntRange(0, 3).Draw(rt, "upperCaseCreator") == 0 {
+			cp := *msg
+			cp.Creator = strings.ToUpper(sender.Addr())
+			msg = &cp
+			label += "[CREATOR-UPPER-CASE]"
+			upper = true
+			cls["creator-upper-case"]++
+		} else if msg.Creator != sender.Addr() {
+			cp := *msg
+			cp.Creator = sender.Addr()
+			msg = &cp
+		}
 		seen := map[uKey]bool{}
 		var rs []c03Relay
 		for _, r := range relays {
@@ -164,6 +179,9 @@ func propC03(rt *rapid.T, t *testing.T, c *ev.Collector) {
 			if x.known && x.keyOK {
 				if _, already := m.credited[x.key]; already || seen[x.key] {
 					dupAttempts++
+					if upper {
+						cls["replay-with-creator-upper-case"]++
+					}
 					if seen[x.key] {
 						cls["dup-inside-tx"]++
 					} else if x.key.Epoch < earliestEpoch(w) {
@@ -367,7 +385,7 @@ func propC03(rt *rapid.T, t *testing.T, c *ev.Collector) {
 			}
 			i := rapid.IntRange(0, len(sentMsgs)-1).Draw(rt, "msg")
 			msg := sentMsgs[i]
-			sender := w.ProvByAddr(msg.Creator)
+			sender := w.ProvByAddr(strings.ToLower(msg.Creator))
 			deliver(sender, sentMsgRelays[i], msg, "resend")
 		},
 		"blocks": func(rt *rapid.T) {
